@@ -18,7 +18,7 @@ from checks.c03 import _codes
 def gen(ctx: common.Ctx, n_scen: int, max_points: int, fail_mode: str, par_every: int) -> Iterator[dict[str, Any]]:
     for k in range(n_scen):
         r = common.rng_for("C04", "s", k)
-        h = histgen.history(("C04", ctx.seed, k), n_steps=3, n_modules=r.randint(3, 5), ops=histgen.CONTENT_OPS, double_p=0.7, revert_p=0)
+        h = histgen.history(("C04", ctx.seed, k), n_steps=3, n_modules=r.randint(3, 5), ops=["sig", "sig", "extra", "rename_def", "delete_def", "kind_change", "add_use", "body_err", "add_def", "base_change"], double_p=0.7, revert_p=0)
         store = [["--sqlite-cache"], ["--no-sqlite-cache"]][k % 2]
         nw = 0 if (k + 1) % par_every else r.choice([2, 3])
         yield {"fn": "vlib.tasks.crash:scenario",
